@@ -272,7 +272,7 @@ func c18Verify(c *Ctx, dec *ssa.Function) {
 		{"key-canonical", "bin<==>(ext#1(call<*>(p0)), nil)", "bin<!=>(ext#1(call<*>(p0)), nil)"},
 		{"key-prime-order", "call<*>(" + Y + ")", "un<!>(call<*>(" + Y + "))"},
 		{"proof-decodes", "bin<==>(ext#1(call<(*" + vrfPkg + "Proof).SetBytes>(alloc<" + vrfPkg + "Proof>, p2)), nil)", "bin<!=>(ext#1(call<(*" + vrfPkg + "Proof).SetBytes>(alloc<" + vrfPkg + "Proof>, p2)), nil)"},
-		{"challenge-equal", "bin<==>(call<(*ed.Scalar).Equal>(load(faddr<c>(" + D + ")), $c), 1)", "bin<!=>(call<(*ed.Scalar).Equal>(load(faddr<c>(" + D + ")), $c), 1)"},
+		{"challenge-equal", "bin<==>(call<(*ed.Scalar).Equal>(load(faddr<#1>(" + D + ")), $c), 1)", "bin<!=>(call<(*ed.Scalar).Equal>(load(faddr<#1>(" + D + ")), $c), 1)"},
 	}
 	var rejects []ana.Edge
 	var trues, falses []ana.ReturnCase
@@ -334,16 +334,16 @@ func c18Verify(c *Ctx, dec *ssa.Function) {
 	// challenge term in Verify: U, V algebra and roles
 	if chalTerm != nil {
 		H := "call<*>(p0, p1)"
-		U := "obj(alloc<ed.Point>, call<(*ed.Point).Negate>(self, " + Y + "), call<(*ed.Point).VarTimeDoubleScalarBaseMult>(self, load(faddr<c>(" + D + ")), self, load(faddr<s>(" + D + "))))"
-		sc := "slice(obj(alloc<[2]*ed.Scalar>, store(iaddr(self, 0), load(faddr<s>(" + D + "))), store(iaddr(self, 1), load(faddr<c>(" + D + ")))), 0, none)"
+		U := "obj(alloc<ed.Point>, call<(*ed.Point).Negate>(self, " + Y + "), call<(*ed.Point).VarTimeDoubleScalarBaseMult>(self, load(faddr<#1>(" + D + ")), self, load(faddr<#2>(" + D + "))))"
+		sc := "slice(obj(alloc<[2]*ed.Scalar>, store(iaddr(self, 0), load(faddr<#2>(" + D + "))), store(iaddr(self, 1), load(faddr<#1>(" + D + ")))), 0, none)"
 		pt := "slice(obj(alloc<[2]*ed.Point>, store(iaddr(self, 0), " + H + "), store(iaddr(self, 1), $Vself)), 0, none)"
-		V := "obj(alloc<ed.Point>, call<(*ed.Point).Negate>(self, load(faddr<gamma>(" + D + "))), call<(*ed.Point).VarTimeMultiScalarMult>(self, " + sc + ", " + pt + "))"
-		want := "call<*>(p0, call<(*ed.Point).Bytes>(" + H + "), load(faddr<gamma>(" + D + ")), " + U + ", " + V + ")"
+		V := "obj(alloc<ed.Point>, call<(*ed.Point).Negate>(self, load(faddr<#0>(" + D + "))), call<(*ed.Point).VarTimeMultiScalarMult>(self, " + sc + ", " + pt + "))"
+		want := "call<*>(p0, call<(*ed.Point).Bytes>(" + H + "), load(faddr<#0>(" + D + ")), " + U + ", " + V + ")"
 		bd, ok := ana.MatchX(c.P, want, chalTerm)
 		okV := false
 		if ok {
 			// the second point of the multi-scalar product is the negated Gamma held in V itself
-			_, okV = ana.MatchX(c.P, "obj(alloc<ed.Point>, call<(*ed.Point).Negate>(self, load(faddr<gamma>("+D+"))))", bd["$Vself"])
+			_, okV = ana.MatchX(c.P, "obj(alloc<ed.Point>, call<(*ed.Point).Negate>(self, load(faddr<#0>("+D+"))))", bd["$Vself"])
 		}
 		r.Check(ok && okV, "C18.hash-inputs.verify-algebra", c.P.Pos(fn.Pos()), "c' = challenge(Y bytes, H bytes, Gamma, U = s·B − c·Y, V = s·H − c·Gamma) %s", ana.Explain(want, chalTerm))
 	}
@@ -358,7 +358,7 @@ func c18Codec(c *Ctx, dec *ssa.Function) {
 				continue
 			}
 			t := b.Of(e.Results[0], e.Instr)
-			want := "slice(obj(alloc<[80]byte>, call<builtin.copy>(slice(slice(self, 0, 80), 0, 32), call<(*ed.Point).Bytes>(load(faddr<gamma>(p0)))), call<builtin.copy>(slice(slice(self, 0, 80), 32, 48), call<(*ed.Scalar).Bytes>(load(faddr<c>(p0)))), call<builtin.copy>(slice(slice(self, 0, 80), 48, none), call<(*ed.Scalar).Bytes>(load(faddr<s>(p0))))), 0, 80)"
+			want := "slice(obj(alloc<[80]byte>, call<builtin.copy>(slice(slice(self, 0, 80), 0, 32), call<(*ed.Point).Bytes>(load(faddr<#0>(p0)))), call<builtin.copy>(slice(slice(self, 0, 80), 32, 48), call<(*ed.Scalar).Bytes>(load(faddr<#1>(p0)))), call<builtin.copy>(slice(slice(self, 0, 80), 48, none), call<(*ed.Scalar).Bytes>(load(faddr<#2>(p0))))), 0, 80)"
 			_, ok := ana.MatchX(c.P, want, t)
 			r.Check(ok, "C18.codec-layout.writer", c.ipos(e.Instr), "Bytes() = Gamma[0:32] ‖ c[32:48] (first 16 bytes) ‖ s[48:80] %s", ana.Explain(want, t))
 		}
@@ -394,10 +394,10 @@ func c18Codec(c *Ctx, dec *ssa.Function) {
 				r.Check(len(acc) > 0 && mustPass(fn, e.Instr.Block(), acc), "C18.codec-layout.reader-gate."+x.name, c.ipos(e.Instr), "successful decode passes the %s gate", x.name)
 			}
 			st := b.Of(fn.Params[0], e.Instr)
-			want := "obj(p0, store(faddr<gamma>(self), ext#0(call<*>(slice(p1, 0, 32)))), store(faddr<c>(self), " + cdec + "), store(faddr<s>(self), " + sdec + "))"
+			want := "obj(p0, store(faddr<#0>(self), ext#0(call<*>(slice(p1, 0, 32)))), store(faddr<#1>(self), " + cdec + "), store(faddr<#2>(self), " + sdec + "))"
 			_, ok := ana.MatchX(c.P, want, st)
 			var gd *ssa.Function
-			if w, _ := ana.Find("store(faddr<gamma>(self), ext#0(call<*>(slice(p1, 0, 32))))", st); w != nil {
+			if w, _ := ana.Find("store(faddr<#0>(self), ext#0(call<*>(slice(p1, 0, 32))))", st); w != nil {
 				gd = calleeOf(w.Arg(1))
 			}
 			r.Check(ok && gd == dec, "C18.codec-layout.reader", c.ipos(e.Instr), "gamma = canonical decoder(data[0:32]); c = SetCanonicalBytes(data[32:48] zero-extended to 32); s = SetCanonicalBytes(data[48:80]) %s", ana.Explain(want, st))
@@ -450,7 +450,7 @@ func c18Hashes(c *Ctx, dec *ssa.Function) {
 			}
 			t := b.Of(e.Results[0], e.Instr)
 			want := "call<(hash.Hash).Sum>(obj(call<crypto/sha512.New>, " + hw(glob("suiteString")) + ", " + hw(glob("proofToHashDomainSeparatorFront")) + ", " +
-				hw("call<(*ed.Point).Bytes>(obj(alloc<ed.Point>, call<(*ed.Point).MultByCofactor>(self, load(faddr<gamma>(p0)))))") + ", " + hw(glob("proofToHashDomainSeparatorBack")) + "), nil)"
+				hw("call<(*ed.Point).Bytes>(obj(alloc<ed.Point>, call<(*ed.Point).MultByCofactor>(self, load(faddr<#0>(p0)))))") + ", " + hw(glob("proofToHashDomainSeparatorBack")) + "), nil)"
 			_, ok := ana.MatchX(c.P, want, t)
 			r.Check(ok, "C18.hash-from-gamma-only.term", c.ipos(e.Instr), "Hash() = SHA512(03 ‖ 03 ‖ (8·gamma).Bytes() ‖ 00): a function of gamma only %s", ana.Explain(want, t))
 		}
@@ -551,7 +551,7 @@ func c18Hashes(c *Ctx, dec *ssa.Function) {
 		gamma := "obj(alloc<ed.Point>, call<(*ed.Point).ScalarMult>(self, " + x + ", " + H + "))"
 		cc := "call<*>(slice(p0, 32, none), call<(*ed.Point).Bytes>(" + H + "), " + gamma + ", obj(alloc<ed.Point>, call<(*ed.Point).ScalarBaseMult>(self, " + k + ")), obj(alloc<ed.Point>, call<(*ed.Point).ScalarMult>(self, " + k + ", " + H + ")))"
 		s := "obj(call<ed.NewScalar>, call<(*ed.Scalar).SetUniformBytes>(self, _), call<(*ed.Scalar).MultiplyAdd>(self, " + cc + ", " + x + ", self))"
-		want := "obj(alloc<" + vrfPkg + "Proof>, store(faddr<gamma>(self), " + gamma + "), store(faddr<c>(self), " + cc + "), store(faddr<s>(self), " + s + "))"
+		want := "obj(alloc<" + vrfPkg + "Proof>, store(faddr<#0>(self), " + gamma + "), store(faddr<#1>(self), " + cc + "), store(faddr<#2>(self), " + s + "))"
 		for _, e := range ana.Exits(fn) {
 			if e.Panic {
 				continue
@@ -569,7 +569,7 @@ func c18Hashes(c *Ctx, dec *ssa.Function) {
 				}
 			}
 			var pchal *ssa.Function
-			if w, _ := ana.Find("store(faddr<c>(self), $c)", t); w != nil {
+			if w, _ := ana.Find("store(faddr<#1>(self), $c)", t); w != nil {
 				pchal = calleeOf(w.Arg(1))
 			}
 			r.Check(vchal != nil && vchal == pchal, "C18.hash-inputs.sibling-challenge", c.ipos(e.Instr), "Prove and Verify call the same challenge routine, arguments in the roles (Y, H, Gamma, k·B|U, k·H|V)")
